@@ -167,7 +167,8 @@ def run(seed_id, props, tier):
             sh(["git", "-C", REPO, "checkout", "--", "."])
             sh(["git", "-C", REPO, "clean", "-fdq"])
         # evidence and replays written while the change was applied do not describe the real tree
-        sh("git checkout -- evidence 2>/dev/null; rm -rf replays", cwd=VERIF)
+        if not os.environ.get("SEEDEVAL_NOCLEAN"):
+            sh("git checkout -- evidence 2>/dev/null; rm -rf replays", cwd=VERIF)
     json.dump(meta, open(os.path.join(dst, "meta.json"), "w"), indent=1)
     return 0
 
